@@ -28,6 +28,14 @@ CHECKS = {
             "Crash/wedge/type-confusion monitor: (1) operator matrix — every binary operator, compound assignment, prefix operator, cast and index form x operand type pair the real analyzer admits (admissibility discovered by asking the analyzer) x boundary value pairs, each as a try-guarded one-expression program run on the VM in crash-isolated workers and on the interpreter; the dynamic kind of the probed result is compared with the static type; (2) the C01 program stream under hostile CoreLimits triples and interpreter call limits. A Go panic, fatal error, step-budget overrun (hook-decided) or non-interrupt outcome refutes the property.",
             "The matrix follows the analyzer's admissibility; memory bombs through data growth are capped by the worker's address-space limit and not explored.",
             "runtime monitoring: exhaustive operator/type/value matrix + limits sweep in crash-isolated workers", "prog-gen+model", "DESIGN.md §3 C02"),
+    "C08": ("exploration",
+            "Span monitor applied to every syntax error, diagnostic (incl. hints), interrupt span and caught-error position produced by three workloads: prefixes/single-token edits of the corpus and hand-written texts (unicode, CRLF, tabs, EOF, imported modules), 73 single-fault templates with a known culprit range under 7 layouts, and 38 runtime failure constructs x 5 placements x fatal/caught on both backends; checks well-formedness against the named file's text, containment in the culprit (Appendix I) and that rendering (Error.Display / Diagnostic.Display) does not panic.",
+            "Containment is asserted only where the template knows the culprit; the whole-file position is errors.Span{Filename: f} with all numeric fields zero.",
+            "runtime monitoring: span well-formedness/containment/render monitor over hostile texts and known-culprit templates", "span-monitor", "DESIGN.md §3 C08"),
+    "C09": ("exploration",
+            "Limit-enforcement monitor: parametric families rec(d), nest(n) (sums, argument lists, list literals), locals(l,d) around each limit for limit triples from {4,16,64,500}^3 (VM) and call limits {4,64,1000} (interpreter); demands F/S/M are measured with the step hook under huge limits, then the run under the limits must complete iff within, end in the corresponding fatal interrupt when exceeded beyond the 50-entry overshoot bound, never crash; the leak oracle runs ~45 loop bodies k and 4k times and requires equal high-water marks and zero residue.",
+            "Overshoot bound 50 = one polling cycle; data-growth memory exhaustion is not a configured limit.",
+            "runtime monitoring: parameter sweep with measured demands (step hook) + iteration-count leak oracle", "limits-sweep", "DESIGN.md §3 C09"),
     "C10": ("exploration",
             "Exact-point cancellation monitor: a counting context cancels at the k-th poll; for every listed program (loops, recursion, try/catch, blocking builtin, 1-4 spawned cores, failing core) and every k up to the program's poll count, on the VM (under the race detector) and the interpreter, the monitor checks that the wait returns a termination interrupt or the program's own outcome, that no core executes more than B=10000 steps after the cancelling poll (step hook), and that no goroutine remains in Core.Run afterwards (stack sampling); a wait that never returns is decided by goroutine-state samples.",
             "B is two orders above the current polling quantum so that retuning it is not an alarm; host builtins that ignore the context are out of scope.",
@@ -48,6 +56,10 @@ CHECKS = {
             "Algebraic-law monitor on both value libraries and via generated programs: reflexivity/symmetry/transitivity of equality and agreement with structural equality, clone equality and independence under mutation histories checked against a shadow model, JSON round trips under the value's type, and identical Display text of the same abstract value built in both libraries.",
             "Trusts harness/valuni structEq and the shadow mutation model; the interpreter library has no Clone so copy laws are checked on the VM library.",
             "runtime monitoring: algebraic laws + shadow-model mutation histories over a value universe", "valuni", "DESIGN.md §3 C13"),
+    "C17": ("exploration",
+            "Concurrency monitor under the Go race detector: seeded programs spawning 1-8 cores (nested spawns, late spawns, a failing core) run with GOMAXPROCS in {1,2,4,16} and seed-determined yield plans injected at the VM's scheduling points (wait lock-upgrade gap, spawn, globals lock) through the yield hook; oracle: no race report with a /repo frame, every output line exactly once and whole, spawn-time argument values echoed, every fin(id) event before the wait-returned event (logical clock), the failing core's fatal interrupt returned, and the recorded history of global reads/writes linearizable per global (porcupine register model, 20 s timeout = inconclusive).",
+            "Schedules are sampled, not enumerated; evidence reports the distinct interleavings observed.",
+            "runtime monitoring: race detector + yield-hook schedule perturbation + porcupine linearizability + event-order monitor", "threads", "DESIGN.md §3 C17"),
     "C18": ("exploration",
             "Exhaustive cross product of type instances x every member the real analyzer lists (table read from ast.<Type>.Fields() at run time) x boundary argument tuples: key-set inclusion through the Go API in both value libraries, generated one-line programs run on both backends in crash-isolated workers, results checked for survival, advertised type and against a small reference model of the index-taking members and indexing.",
             "The member table follows the analyzer at run time; the reference model of member results is harness code (props/c18/model.go).",
